@@ -371,6 +371,16 @@ func (p *proc) model(vars []*term.T) (map[*term.T]uint64, bool) {
 	return m, true
 }
 
+func hasFP(assumps []*term.T) bool {
+	seen := map[*term.T]bool{}
+	for _, a := range assumps {
+		if term.HasFP(a, seen) {
+			return true
+		}
+	}
+	return false
+}
+
 func hasHard(assumps []*term.T) bool {
 	seen := map[*term.T]bool{}
 	for _, a := range assumps {
@@ -399,7 +409,7 @@ func (s *Solver) Check(assumps []*term.T) Result {
 	}
 	order := []int{0, 1}
 	timeouts := []int{s.TimeoutMs, 2 * s.TimeoutMs, 6 * s.TimeoutMs}
-	if hasHard(lits) {
+	if hasHard(lits) && !hasFP(lits) {
 		order = []int{0, 2, 1}
 		timeouts[0] = s.TimeoutMs / 2
 	}
